@@ -1,4 +1,5 @@
 import Fdo.Proto.TO2Device
+import Fdo.Facts
 import Fdo.Props.C04
 /-
 C01 — the device completes TO2 only with the owner its voucher chain designates.
@@ -109,5 +110,15 @@ theorem proceed_implies_chain (O : DeviceOracles) (d : DeviceInputs) (h : verify
   obtain ⟨p, _, es, _, hp, _, _, _, _, _, _, _, _, hf, _, _, _, hv, _, _⟩ := proceed_only_with_designated_owner O d h
   have := (verifyEntries_iff O.sha256 O.sha384 O.entrySigOK O.keyOK (assembled p es)).mp hv
   exact ⟨p, es, hp, hf, this.1, this.2⟩
+
+
+/-- **What the source does** (regenerated call-order facts of the device's `verifyVoucher`,
+`verifyOwner`, `sendHelloDevice`): header MAC, manufacturer-key hash and entry chain are verified,
+the advertised key compared and the blob verified; HelloDevice's hash is compared and 61's signature
+verified before anything of it is used; the key-exchange validity and availability are checked. -/
+theorem code_facts :
+    Fdo.Facts.allBefore "verifyVoucher" ["sendNextOVEntry", "VerifyHeader", "VerifyManufacturerKey", "VerifyEntries", "Equal"] "Verify" = true ∧
+    Fdo.Facts.before "sendHelloDevice" "Equal" "Verify" = true ∧
+    Fdo.Facts.allBefore "verifyOwner" ["sendHelloDevice", "Valid", "Available"] "verifyVoucher" = true := by decide +kernel
 
 end Fdo.Props.C01
